@@ -84,6 +84,62 @@ CAPI = {
     'PyObject_GetIter': ({PY, NEWREF, NULLABLE}, 'runs __iter__'),
     'PyLong_CheckExact': (set(), 'type compare'),
     '_Py_IsImmortal': (set(), 'flag'),
+    # not used by the pinned tree; classified so that a change which starts using them is analysed
+    # with the right effects instead of "unknown name"
+    'PyObject_Vectorcall': ({PY, NEWREF, NULLABLE}, 'calls a Python callable'),
+    'PyObject_VectorcallMethod': ({PY, NEWREF, NULLABLE}, 'calls a Python method'),
+    'PyObject_Call': ({PY, NEWREF, NULLABLE}, 'calls a Python callable'),
+    'PyObject_CallObject': ({PY, NEWREF, NULLABLE}, 'calls a Python callable'),
+    'PyObject_CallNoArgs': ({PY, NEWREF, NULLABLE}, 'calls a Python callable'),
+    'PyObject_CallOneArg': ({PY, NEWREF, NULLABLE}, 'calls a Python callable'),
+    'PyObject_CallFunctionObjArgs': ({PY, NEWREF, NULLABLE}, 'calls a Python callable'),
+    'PyObject_CallMethodObjArgs': ({PY, NEWREF, NULLABLE}, 'calls a Python method'),
+    'PyObject_CallMethod': ({PY, NEWREF, NULLABLE}, 'calls a Python method'),
+    'PyObject_CallFunction': ({PY, NEWREF, NULLABLE}, 'calls a Python callable'),
+    'PyObject_Length': ({PY, RC_FAIL}, 'runs __len__'),
+    'PyObject_Size': ({PY, RC_FAIL}, 'runs __len__'),
+    'PyObject_LengthHint': ({PY, RC_FAIL}, 'runs __len__ / __length_hint__'),
+    'PyObject_GetItem': ({PY, NEWREF, NULLABLE}, 'runs __getitem__'),
+    'PyObject_SetItem': ({PY, RC_FAIL}, 'runs __setitem__'),
+    'PyObject_Hash': ({PY, RC_FAIL}, 'runs __hash__'),
+    'PyObject_IsTrue': ({PY, RC_FAIL}, 'runs __bool__ / __len__'),
+    'PyObject_Not': ({PY, RC_FAIL}, 'runs __bool__ / __len__'),
+    'PyObject_RichCompare': ({PY, NEWREF, NULLABLE}, 'runs rich comparison'),
+    'PyObject_RichCompareBool': ({PY, RC_FAIL}, 'runs rich comparison'),
+    'PyObject_Repr': ({PY, NEWREF, NULLABLE}, 'runs __repr__'),
+    'PyObject_Str': ({PY, NEWREF, NULLABLE}, 'runs __str__'),
+    'PyObject_GetAttrString': ({PY, NEWREF, NULLABLE}, 'attribute lookup'),
+    'PyObject_SetAttr': ({PY, RC_FAIL}, 'attribute store'),
+    'PyObject_HasAttr': ({PY, SWALLOWS}, 'attribute lookup, errors suppressed'),
+    'PyObject_IsInstance': ({PY, RC_FAIL}, 'runs __instancecheck__'),
+    'PyObject_IsSubclass': ({PY, RC_FAIL}, 'runs __subclasscheck__'),
+    'PySequence_Tuple': ({PY, NEWREF, NULLABLE}, 'iterates an arbitrary iterable'),
+    'PySequence_Fast': ({PY, NEWREF, NULLABLE}, 'iterates an arbitrary iterable'),
+    'PySequence_GetItem': ({PY, NEWREF, NULLABLE}, 'runs __getitem__'),
+    'PySequence_Size': ({PY, RC_FAIL}, 'runs __len__'),
+    'PySequence_Length': ({PY, RC_FAIL}, 'runs __len__'),
+    'PySequence_Contains': ({PY, RC_FAIL}, 'runs __contains__ / __eq__'),
+    'PyMapping_Keys': ({PY, NEWREF, NULLABLE}, 'runs keys()'),
+    'PyMapping_Values': ({PY, NEWREF, NULLABLE}, 'runs values()'),
+    'PyMapping_Items': ({PY, NEWREF, NULLABLE}, 'runs items()'),
+    'PyDict_Copy': ({NEWREF, NULLABLE}, 'new dict in storage order'),
+    'PyDict_SetDefault': ({PY, BORROW, NULLABLE, MUTATES}, 'hashes/compares the key'),
+    'PyDict_DelItem': ({PY, RC_FAIL, MUTATES}, 'hashes/compares the key'),
+    'PyDict_New': ({NEWREF, NULLABLE}, 'allocates'),
+    'PyList_New': ({NEWREF, NULLABLE}, 'allocates (slots are NULL)'),
+    'PyTuple_New': ({NEWREF, NULLABLE}, 'allocates (slots are NULL)'),
+    'PyList_Append': ({RC_FAIL, MUTATES}, 'appends'),
+    'PyList_AsTuple': ({NEWREF, NULLABLE}, 'new tuple'),
+    'PyList_SetItem': ({STEALS, MUTATES, RC_FAIL}, 'checked store, steals'),
+    'PyTuple_SetItem': ({STEALS, MUTATES, RC_FAIL}, 'checked store, steals'),
+    'PyTuple_Pack': ({NEWREF, NULLABLE}, 'new tuple'),
+    'PyLong_AsSsize_t': ({RC_FAIL}, 'conversion'),
+    'PyLong_FromSsize_t': ({NEWREF, NULLABLE}, 'allocates'),
+    'PyErr_Fetch': ({ERRCLEAR}, 'takes the pending exception'),
+    'PyErr_Restore': (set(), 'sets the error indicator'),
+    'PyErr_ExceptionMatches': (set(), 'type test'),
+    'PyErr_WarnFormat': ({PY, RC_FAIL}, 'runs the warnings machinery'),
+    'PyWeakref_NewRef': ({NEWREF, NULLABLE}, 'allocates a weak reference'),
 }
 
 # ---- pybind11 free functions -------------------------------------------------------------------
